@@ -11,7 +11,7 @@ cleanup() { git -C /repo worktree remove --force $wt >/dev/null 2>&1; }
 trap cleanup EXIT
 cd $wt
 demo="$src/demo${k}_test.go.txt"
-dest=$(head -15 "$demo" | grep -oE '[A-Za-z0-9_/]+/zz_[A-Za-z0-9_]+_test\.go' | head -1)
+dest=$(head -15 "$demo" | grep -oE '[A-Za-z0-9_/]+/(zz|aaa)_[A-Za-z0-9_]+_test\.go' | head -1)
 [ -z "$dest" ] && { echo "cannot find demo destination in $demo"; exit 2; }
 pkg=$(dirname "$dest")
 git apply "$src/MUTANT$k.diff" || { echo "FAIL: patch does not apply"; exit 1; }
